@@ -20,7 +20,17 @@ type c15Case struct {
 
 var c15Domains = []string{"example.org", "sub.example.org", "example.com", "google.*", "example.*", "a.com", "b.a.com", "kobe.jp", "x.kobe.jp", "github.io", "me.github.io", "org", "localhost",
 	"ample.org", "notexample.org", "le.com", "ithub.io"} // textual suffixes / extensions of other entries that do not sit on a label boundary
-var c15Selectors = []string{".a", ".b", "#c", "div[x=\"1\"]", ".banner > a", "#c"}
+var c15Selectors = func() []string {
+	sel := []string{".a", ".b", "#c", "div[x=\"1\"]", ".banner > a", "#c"}
+	// selectors with equal FastHash
+	for _, cp := range findColliders(".ad-", "", 2) {
+		sel = append(sel, cp[0], cp[1])
+	}
+	for _, cp := range findColliders("#ad_", "", 1) {
+		sel = append(sel, cp[0], cp[1])
+	}
+	return sel
+}()
 
 func c15HostsFor(lines []string) []string {
 	hosts := []string{"example.org", "sub.example.org", "x.sub.example.org", "example.com", "google.co.uk", "www.google.com", "notexample.org",
